@@ -103,6 +103,10 @@ def device_programs(deep=False):
                 out.append((name, tag + "+ifarm", "10 IF X = 1 THEN " + stmt + " ELSE Y = 2"))
                 out.append((name, tag + "+elsearm", "10 IF X = 1 THEN Y = 2 ELSE " + stmt))
                 out.append((name, tag + "+trail", "10 " + stmt + " "))
+            if tag == "lits":
+                # the same statement in a program whose DATA line spells the same constants beside an empty item (the tool
+                # then rewrites the DATA items in place): operands are not DATA items
+                out.append((name, "lits+dataenv", "10 " + stmt + "\n90 DATA 1 , , 2 , 3 , 4 , 5 , 6 , 7"))
     return out
 
 
